@@ -151,6 +151,10 @@ type VerifVoterState struct {
 	DBRoundIndex                                           uint32
 	DBMarks                                                map[VoteType]uint8
 	Wrappers                                               []RoundIndexHash
+	// VoteOver: which vote kinds went over the threshold per block hash, "hash:chamber kinds:house kinds", sorted
+	VoteOver []string
+	// Counts: the vote statistics of the current (round, index): "c|h kind hash count nvotes", sorted, zero entries omitted
+	Counts []string
 }
 
 // VerifVoteMsg describes one received vote.
@@ -462,6 +466,57 @@ func (d *VerifVoter) State() VerifVoterState {
 	s.NextMarked, s.CurMarked, s.NextVoted = h(v.nextMarked), h(v.curMarked), h(v.nextVoted)
 	s.DBRound, s.DBRoundIndex, s.DBMarks = v.voteCache.VerifState()
 	s.Wrappers = append(s.Wrappers, v.votesWrappers.contexts...)
+	kinds := []VoteType{Prevote, Precommit, NextIndex, Certificate}
+	for hash, vs := range v.voteOver {
+		line := fmt.Sprintf("%x:", hash[28:])
+		for _, k := range kinds {
+			if vs.chamber != nil && vs.chamber[k] {
+				line += fmt.Sprint(uint8(k))
+			}
+		}
+		line += ":"
+		for _, k := range kinds {
+			if vs.house != nil && vs.house[k] {
+				line += fmt.Sprint(uint8(k))
+			}
+		}
+		s.VoteOver = append(s.VoteOver, line)
+	}
+	sort.Strings(s.VoteOver)
+	if v.votesMgr != nil {
+		for _, m := range []struct {
+			tag string
+			vm  *VotesManager
+		}{{"c", v.votesMgr.chamber}, {"h", v.votesMgr.house}} {
+			for _, k := range kinds {
+				var sta *VoteSta
+				switch k {
+				case Prevote:
+					sta = m.vm.prevotes
+				case Precommit:
+					sta = m.vm.precommits
+				case NextIndex:
+					sta = m.vm.nextIndexs
+				case Certificate:
+					sta = m.vm.certificates
+				}
+				hashes := map[common.Hash]bool{}
+				for hh := range sta.voteCounts {
+					hashes[hh] = true
+				}
+				for hh := range sta.votesInfo {
+					hashes[hh] = true
+				}
+				for hh := range hashes {
+					if sta.voteCounts[hh] == 0 && len(sta.votesInfo[hh]) == 0 {
+						continue
+					}
+					s.Counts = append(s.Counts, fmt.Sprintf("%s %d %x %d %d", m.tag, uint8(k), hh[28:], sta.voteCounts[hh], len(sta.votesInfo[hh])))
+				}
+			}
+		}
+		sort.Strings(s.Counts)
+	}
 	return s
 }
 
